@@ -125,3 +125,141 @@ Proof.
   apply no_teardown_cons in NT as [Na NT]. cbn [msteps all_steps]. rewrite trial_step_model by assumption. cbn.
   apply IH; [now apply step_inv|exact NT].
 Qed.
+
+(* ------------------------------------------------------------------ the C07 step monitor *)
+From KV Require Import Proofs.WorldSucc Proofs.WorldJob Proofs.WorldTrials Proofs.WorldObs.
+
+Lemma in_insert_job j x l : In x (insert_job j l) <-> x = j \/ In x l.
+Proof.
+  induction l as [|h t IH]; cbn; [intuition|]. destruct (Nat.leb (j_name j) (j_name h)); cbn; [intuition|]. rewrite IH. intuition.
+Qed.
+
+Lemma in_sort_jobs x l : In x (sort_jobs l) <-> In x l.
+Proof. unfold sort_jobs. induction l as [|h t IH]; cbn; [tauto|]. rewrite in_insert_job, IH. intuition. Qed.
+
+Lemma job_names_project n w : In n (job_names (project w)) <-> find_job n (w_jobs w) <> None.
+Proof.
+  unfold job_names, project. cbn [pj_jobs]. rewrite in_map_iff, find_job_some_in. split.
+  - intros (j&E&I). apply (proj1 (in_sort_jobs _ _)) in I. exists j. split; assumption.
+  - intros (j&I&E). exists j. split; [exact E|exact (proj2 (in_sort_jobs _ _) I)].
+Qed.
+
+Lemma pt_completed_ptr t : pt_completed (ptr t) = t_completed t.
+Proof. reflexivity. Qed.
+
+(* how one step changes the set of run objects (no teardown, no external deletion) *)
+Lemma step_jobs w a n :
+  Inv w -> JobInv w -> job_safe a = true ->
+  (find_job n (w_jobs (step w a)) <> None -> find_job n (w_jobs w) <> None \/
+     (exists onf rest, pending_of w CTrial = (WJobCreate n, onf) :: rest)) /\
+  (find_job n (w_jobs w) <> None -> find_job n (w_jobs (step w a)) <> None \/
+     (exists onf rest, pending_of w CTrial = (WJobDelete n, onf) :: rest)).
+Proof.
+  intros [I P] J Sf.
+  assert (Same : forall w', w_jobs w' = w_jobs w ->
+     (find_job n (w_jobs w') <> None -> find_job n (w_jobs w) <> None \/ (exists onf rest, pending_of w CTrial = (WJobCreate n, onf) :: rest)) /\
+     (find_job n (w_jobs w) <> None -> find_job n (w_jobs w') <> None \/ (exists onf rest, pending_of w CTrial = (WJobDelete n, onf) :: rest))).
+  { intros w' ->. split; auto. }
+  destruct a; try discriminate; cbn [step].
+  - destruct (pending_of w c); [|apply Same; reflexivity]. destruct c; [|destruct (plan_sug w resp)|]; apply Same; reflexivity.
+  - destruct (pending_of w c) as [|[wr onf] rest] eqn:Ep; [apply Same; reflexivity|].
+    destruct (if inject_failure then None else apply_write (count_write w) wr) as [w1|] eqn:A; [|apply Same; destruct c; reflexivity].
+    destruct inject_failure; [discriminate|].
+    assert (E1 : w_jobs (set_pending w1 c rest) = w_jobs w1) by (destruct c; reflexivity). rewrite E1.
+    destruct (no_job_write (wr, onf)) eqn:N.
+    + destruct (apply_write_job_frame _ _ _ _ A N) as (_&F2&_). rewrite F2. split; auto.
+    + assert (c = CTrial).
+      { destruct c; [| |reflexivity]; cbn in Ep.
+        - pose proof (j_pexp _ J) as H. rewrite Ep in H. apply forallb_tail in H as [H _]. congruence.
+        - pose proof (j_psug _ J) as H. rewrite Ep in H. apply forallb_tail in H as [H _]. congruence. }
+      subst c. destruct wr; cbn in N; try discriminate; cbn [apply_write] in A.
+      * (* status write: run objects untouched *)
+        destruct (find_trial name (w_trials (count_write w))); [|discriminate]. destruct (Nat.eqb (t_rv t) rv); [|discriminate].
+        inversion A; subst. cbn. split; auto.
+      * destruct (find_job name (w_jobs (count_write w))) eqn:Fj; [discriminate|]. inversion A; subst. cbn -[find_job] in *.
+        split.
+        -- intro H. destruct (Nat.eq_dec n name) as [->|Ne]; [right; eauto|]. left. rewrite find_job_app_other in H; auto.
+        -- intro H. left. apply find_job_some_in in H as (j&Ij&Ej). apply find_job_some_in. exists j. split; [apply in_or_app; now left|exact Ej].
+      * destruct (find_job name (w_jobs (count_write w))) eqn:Fj; [|discriminate]. inversion A; subst. cbn -[find_job] in *.
+        split.
+        -- intro H. left. apply find_job_some_in in H as (j0&Ij&Ej). apply filter_In in Ij as [Ij _]. apply find_job_some_in. eauto.
+        -- intro H. destruct (Nat.eq_dec n name) as [->|Ne]; [right; eauto|]. left. rewrite find_job_filter_other; auto.
+  - apply Same. destruct c; reflexivity.
+  - (* JobDone *)
+    cbn. split; intro H; left.
+    + revert H. apply find_job_map. intro j. destruct (Nat.eqb (j_name j) t); [|reflexivity]. destruct (j_phase j); reflexivity.
+    + apply find_job_map; [|exact H]. intro j. destruct (Nat.eqb (j_name j) t); [|reflexivity]. destruct (j_phase j); reflexivity.
+  - destruct (find_trial t (w_trials w)), (db_get t (w_db w)); apply Same; reflexivity.
+  - destruct (find_trial t (w_trials w)) as [tr|]; [|apply Same; reflexivity]. destruct (_ && _); [|apply Same; reflexivity].
+    apply Same. cbn. destruct v, (db_get t (w_db w)); reflexivity.
+  - destruct (i_dep (w_infra w)); apply Same; reflexivity.
+  - apply Same. reflexivity.
+  - apply Same. reflexivity.
+  - apply Same. reflexivity.
+  - destruct (w_exp w) as [e|]; [|apply Same; reflexivity]. destruct (e_max e); [|apply Same; reflexivity].
+    destruct (_ && _ && _); apply Same; reflexivity.
+Qed.
+
+(* a pending creation of a run object is for a trial that exists in the store *)
+Definition CreateEx (w : world) : Prop :=
+  forall c n onf, In (WJobCreate n, onf) (pending_of w c) -> find_trial n (w_trials w) <> None.
+
+Lemma find_trial_some_in n ts : find_trial n ts <> None <-> In n (names ts).
+Proof.
+  pose proof (find_trial_none n ts) as H. split.
+  - intro K. destruct (in_dec Nat.eq_dec n (names ts)) as [I|NI]; [exact I|]. apply H in NI. contradiction.
+  - intros I E. apply H in E. contradiction.
+Qed.
+
+Lemma step_createex w a : Inv w -> CreateEx w -> is_teardown a = false -> CreateEx (step w a).
+Proof.
+  intros Iv CE NT c n onf Hx. pose proof Iv as [I _].
+  apply find_trial_some_in. apply (step_names_incl w a NT Iv). apply find_trial_some_in.
+  destruct (step_pending _ _ _ _ Hx) as [H|[H|[(resp&H)|(key&dberr&H)]]].
+  - eapply CE; eauto.
+  - exfalso. pose proof (ek_plan_exp_kinds w) as K. rewrite forallb_forall in K. specialize (K _ H). discriminate.
+  - exfalso. destruct (plan_sug_shape _ _ _ H) as (cs0&Hc&[(k&[X|X])|(st&X&_)]); discriminate.
+  - destruct (plan_trial_shape _ _ _ _ H) as (t&F&N&[(E&_)|[(Pl&_)|[(E&_)|[(E&_)|[(E&_)|(cs&o&ct&E&_)]]]]]); try discriminate.
+    + rewrite Pl in H. destruct H as [X|[X|[]]]; discriminate.
+    + inversion E; subst. destruct (tlag_find _ _ _ _ (i_tlag _ I) F) as (t'&F'&_). congruence.
+Qed.
+
+Theorem job_step_model w a :
+  Inv w -> JobInv w -> CreateEx w -> job_safe a = true -> job_step (project w) a (project (step w a)) = true.
+Proof.
+  intros Iv J CE Sf. pose proof Iv as [I _]. unfold job_step. apply andb_true_iff. split.
+  - apply forallb_forall. intros n Hn. apply job_names_project in Hn.
+    destruct (proj1 (step_jobs w a n Iv J Sf) Hn) as [H|(onf&rest&Ep)].
+    + apply orb_true_iff. left. apply mem_in. now apply job_names_project.
+    + apply orb_true_iff. right. rewrite find_pt_project.
+      assert (Ix : In (WJobCreate n, onf) (pending_of w CTrial)) by (rewrite Ep; now left).
+      destruct (find_trial n (w_trials w)) as [t|] eqn:F; [|exfalso; eapply CE; eauto].
+      cbn [option_map]. rewrite pt_completed_ptr.
+      destruct (t_completed t) eqn:C; [|reflexivity]. exfalso.
+      destruct (find_trial_name _ _ _ F) as [N It]. pose proof (j_done _ J t It C) as Cr. rewrite N in Cr.
+      pose proof (j_ptrial _ J) as PT. cbn in Ep. rewrite Ep in PT. destruct PT as [_ [Nin _]]. contradiction.
+  - apply forallb_forall. intros n Hn. apply job_names_project in Hn.
+    destruct (proj2 (step_jobs w a n Iv J Sf) Hn) as [H|(onf&rest&Ep)].
+    + apply orb_true_iff. left. apply mem_in. now apply job_names_project.
+    + apply orb_true_iff. right. rewrite find_pt_project.
+      destruct (find_trial n (w_trials w)) as [t|] eqn:F; [|reflexivity]. cbn [option_map]. rewrite pt_completed_ptr.
+      pose proof (j_ptrial _ J) as PT. cbn in Ep. rewrite Ep in PT. destruct PT as [Fa _]. inversion Fa as [|? ? OK _]; subst.
+      unfold jw_ok in OK. cbn [fst] in OK. destruct OK as [_ Cc].
+      destruct (cached_completed_store w n I Cc) as (t'&F'&C'). rewrite F in F'. inversion F'; subst. exact C'.
+Qed.
+
+Theorem job_steps_model w acts :
+  Inv w -> JobInv w -> CreateEx w -> job_safe_acts acts -> all_steps job_step (project w) (msteps w acts) = true.
+Proof.
+  revert w. induction acts as [|a l IH]; intros w I J CE Sf; [reflexivity|].
+  unfold job_safe_acts in Sf. cbn in Sf. apply andb_true_iff in Sf as [Sa Sl].
+  cbn [msteps all_steps]. rewrite job_step_model by assumption. cbn.
+  apply IH; [apply step_inv; [now apply job_safe_no_teardown|exact I]|now apply step_job
+            |apply step_createex; [exact I|exact CE|now apply job_safe_no_teardown]|exact Sl].
+Qed.
+
+Theorem job_monitor_sound c acts :
+  valid_cfg c -> job_safe_acts acts -> all_steps job_step (project (init c)) (msteps (init c) acts) = true.
+Proof.
+  intros V Sf. apply job_steps_model; [now apply Inv_init|apply JobInv_init| |exact Sf]. intros [] n onf [].
+Qed.
